@@ -3,7 +3,8 @@
    executable model of Model.v (instantiated on an arbitrary real closed field F: exact arithmetic).
    All statements quantify over ALL sampler expressions (any nesting), batch shapes, sizes and sample counts. *)
 From mathcomp Require Import all_ssreflect all_algebra.
-Require Import C18.Model C18.ProofsIdx C18.ProofsLinear C18.ProofsGram C18.ProofsMx C18.ProofsCoord C18.ProofsChol.
+Require Import C18.Model C18.ModelBatch C18.ProofsIdx C18.ProofsLinear C18.ProofsGram C18.ProofsMx C18.ProofsCoord C18.ProofsChol
+  C18.ProofsBatch.
 Set Implicit Arguments.
 Unset Strict Implicit.
 Import GRing.Theory Num.Theory.
@@ -176,3 +177,146 @@ have -> : (2%:R - 1 : F) = 1 by rewrite -[X in _ - X]/(1%:R) -natrB.
 exact: ltr01.
 Qed.
 End NonVacuous.
+
+(* ------------------------------------------------------------------------------------------------------------------
+   Batch / sample index layout for ALL batch shapes and sample counts, the CIQ broadcast, and histories.          *)
+
+(* Model.v flattens a batch shape bs to B = prod bs.  `ravel` is the row-major address torch uses; it is a bijection
+   between the multi-indices inside a shape and [0, prod shape) — so "batch member b" of the theorems above is exactly
+   one multi-index of the real batch shape, for every number and size of batch dimensions. *)
+Theorem C18_batch_index_bijection : forall (shape : seq nat),
+  (forall idx, in_shape shape idx -> (ravel shape idx < prodn shape)%N /\ unravel shape (ravel shape idx) = idx) /\
+  (forall x, (x < prodn shape)%N -> in_shape shape (unravel shape x) /\ ravel shape (unravel shape x) = x) /\
+  (forall idx idx', in_shape shape idx -> in_shape shape idx' -> ravel shape idx = ravel shape idx' -> idx = idx').
+Proof.
+move=> shape; split; [|split].
+- by move=> idx h; split; [exact: ravel_lt | exact: unravel_ravel].
+- by move=> x h; split; [exact: unravel_in_shape | exact: ravel_unravel].
+- by move=> idx idx'; exact: ravel_inj.
+Qed.
+
+(* The sampler's linear map of a batch is the per-member map: in the returned tensor of shape (k, batch.., n), the entry
+   at multi-index (t, idx.., i) is row i of R_idx applied to the noise coordinates of (member idx, draw t) — whatever the
+   batch shape, the sample count and the nesting of samplers.  No entry mixes members or draws. *)
+Theorem C18_sample_linear_nd : forall (F : rcfType) (st : sett) k (e : sx F) zs s,
+  wf (RA F) st e -> noise_ok (RA F) st k e zs -> alg_sample (RA F) st k e zs = Some s ->
+  size s = prodn (k :: bshape e ++ [:: NN e]) /\
+  forall t idx i, (t < k)%N -> in_shape (bshape e) idx -> (i < NN e)%N ->
+    rd (RA F) s (ravel (k :: bshape e ++ [:: NN e]) (t :: idx ++ [:: i])) =
+    \sum_(a < nd (RA F) st e) root (RA F) st e (ravel (bshape e) idx) i a *
+                               coord (RA F) st k e zs (ravel (bshape e) idx) a t.
+Proof. move=> F st k e zs s; exact: sample_linear_nd. Qed.
+
+(* ... and every position of the returned tensor is such an address. *)
+Theorem C18_sample_positions : forall k bs n x, (x < prodn (k :: bs ++ [:: n]))%N ->
+  exists t idx i, [/\ (t < k)%N, in_shape bs idx, (i < n)%N & x = ravel (k :: bs ++ [:: n]) (t :: idx ++ [:: i])].
+Proof. exact: sample_positions. Qed.
+
+(* CIQ branch, index layout (the quadrature's accuracy stays C11's): contour_integral_quad computes ONE rule (weights
+   w[., b], shifts sh[., b]) per batch member and `expand`s it over the leading sample axis of the right-hand side.
+   With MINRES-then-matmul standing for a per-member, per-shift matrix res b s, draw t of member b is
+       S_b z_{b,t},   S_b = sum_q w[q,b] * res b sh[q+1,b],
+   for all Q, k, B, n: the same matrix for every draw t, built from member b's own rule only. *)
+Theorem C18_ciq_batch_layout : forall (F : rcfType) (res : nat -> F -> nat -> nat -> F) Q k B n (w sh z : seq F),
+  size (ciq_sample (RA F) res Q k B n w sh z) = (k * B * n)%N /\
+  forall t b i, (t < k)%N -> (b < B)%N -> (i < n)%N ->
+    rd (RA F) (ciq_sample (RA F) res Q k B n w sh z) ((t * B + b) * n + i) =
+    \sum_(j < n) ciq_root (RA F) res Q B w sh b i j * rd (RA F) z ((b * n + j) * k + t).
+Proof. move=> F res Q k B n w sh z; exact: ciq_linear. Qed.
+
+(* The statement has content: broadcasting with repeat_interleave(k).view(Q, k, B) instead of expand gives a sampler
+   that violates it (two members, two draws: draw 0 of member 1 is computed with member 0's weight). *)
+Theorem C18_ciq_interleaved_broadcast_refuted : forall (F : rcfType),
+  exists (res : nat -> F -> nat -> nat -> F) Q k B n (w sh z : seq F) t b i,
+    [/\ (t < k)%N, (b < B)%N & (i < n)%N] /\
+    [/\ size w = (Q * B)%N, size sh = (Q.+1 * B)%N & size z = (B * n * k)%N] /\
+    rd (RA F) (ciq_sample_with (RA F) (t_interleave_view (RA F)) res Q k B n w sh z) ((t * B + b) * n + i) !=
+    \sum_(j < n) ciq_root (RA F) res Q B w sh b i j * rd (RA F) z ((b * n + j) * k + t).
+Proof. exact: ciq_interleave_refuted. Qed.
+
+(* Histories.  The generic sampler reads the memoize entry 'root_decomposition'.  Its writers are root_decomposition()
+   itself (only when the entry is absent) and _root_inv_decomposition (overwrites; stores `roots`, or `roots[0]` when the
+   initial vectors have more than one column).  For EVERY sequence of such calls (and arbitrary other calls in between),
+   if each call's own result is valid — Lanczos roots of the shape RootDecomposition returns whose first probe is a root
+   of every member (C06 / C09) — the entry the sampler finds has the operator's full batch shape and member b's slice
+   is a root of member b. *)
+Theorem C18_history_entry_valid : forall (F : rcfType) (bs : seq nat) n (A : seq F) (hs : seq (hstep F)),
+  steps_valid bs n A hs -> if hist_run hs is Some x then entry_valid bs n A x else True.
+Proof. move=> F bs n A hs; exact: hist_run_valid. Qed.
+
+(* Hence sampling after any such history: draws[t, b, :] = R_b z_{b,t} with R_b read from member b's slice of the entry
+   (torch.matmul's broadcast of the stored root is the identity on members) and R_b R_b^T = A_b. *)
+Theorem C18_history_sample : forall (F : rcfType) (bs : seq nat) n (A : seq F) (hs : seq (hstep F)) x k (z : seq F),
+  steps_valid bs n A hs -> hist_run hs = Some x ->
+  size (sample_entry (RA F) k bs n x z) = (k * prodn bs * n)%N /\
+  (forall t b i, (t < k)%N -> (b < prodn bs)%N -> (i < n)%N ->
+     rd (RA F) (sample_entry (RA F) k bs n x z) ((t * prodn bs + b) * n + i) =
+     \sum_(a < entry_r x) rd (RA F) x.2 ((b * n + i) * entry_r x + a) * rd (RA F) z ((b * entry_r x + a) * k + t)) /\
+  (forall b i j, (b < prodn bs)%N -> (i < n)%N -> (j < n)%N ->
+     \sum_(a < entry_r x) rd (RA F) x.2 ((b * n + i) * entry_r x + a) * rd (RA F) x.2 ((b * n + j) * entry_r x + a) =
+     rd (RA F) A ((b * n + i) * n + j)).
+Proof.
+move=> F bs n A hs x k z hv hr.
+have hx : entry_valid bs n A x by have := hist_run_valid hv; rewrite hr.
+case: (sample_entry_linear k z hx) => h1 h2; split=> //; split=> //.
+by move=> b i j; exact: sample_entry_gram.
+Qed.
+
+(* ... and the entry is a valid generic leaf (RGiven) of the sampler expressions, so C18_sample_linear / C18_sample_root
+   cover every nesting (PsdSum, Block*, Interpolated, ...) whose leaves were sampled after a history. *)
+Theorem C18_history_entry_is_leaf : forall (F : rcfType) (st : sett) (bs : seq nat) n (A : seq F) (hs : seq (hstep F)) x,
+  steps_valid bs n A hs -> hist_run hs = Some x ->
+  ciq_on st = false -> n != 1%N -> size A = (prodn bs * n * n)%N ->
+  wf (RA F) st (SGen bs n A (RGiven (entry_r x) x.2)) /\ leaves_ok st (SGen bs n A (RGiven (entry_r x) x.2)).
+Proof.
+move=> F st bs n A hs x hv hr; apply: entry_leaf_ok.
+by have := hist_run_valid hv; rewrite hr.
+Qed.
+
+(* The storing rule matters: `initial_vectors is not None and roots.dim() > 2` (instead of `initial_vectors.size(-1) > 1`)
+   stores member 0's root without batch dimension for a batch operator and ONE initial vector; the broadcast then
+   samples every member with member 0's root. *)
+Theorem C18_root_inv_entry_by_dim_refuted : forall (F : rcfType),
+  exists (bs : seq nat) (n : nat) (A : seq F) (iv : option nat) (roots : tens F) (z : seq F) (p : nat),
+    step_valid bs n A (HRootInv iv roots) /\
+    rd (RA F) (sample_entry (RA F) 1 bs n (root_inv_entry_by_dim iv roots) z) p !=
+    rd (RA F) (sample_entry (RA F) 1 bs n (root_inv_entry iv roots) z) p.
+Proof. exact: root_inv_entry_by_dim_refuted. Qed.
+
+(* non-vacuity: a history mixing all step kinds on a batch of two 2x2 members (I and 4 I) satisfies steps_valid and
+   leaves an entry *)
+Section NonVacuousHistory.
+Variable F : rcfType.
+Definition nvh_A : seq F := [:: 1; 0; 0; 1; 4%:R; 0; 0; 4%:R].
+Definition nvh_R : seq F := [:: 1; 0; 0; 1; 2%:R; 0; 0; 2%:R].
+Definition nvh_hist : seq (hstep F) :=
+  [:: HOther F; HRootDec ([:: 2%N; 2%N; 2%N], nvh_R); HRootInv (Some 2%N) ([:: 2%N; 2%N; 2%N; 2%N], nvh_R ++ nvh_R);
+      HOther F; HRootInv (Some 1%N) ([:: 2%N; 2%N; 2%N], nvh_R); HRootInv None ([:: 2%N; 2%N; 2%N], nvh_R)].
+
+Lemma nvh_valid : root_valid [:: 2%N] 2 nvh_A 2 nvh_R.
+Proof.
+move=> b i j; rewrite /prodn /= muln1 => hb hi hj.
+rewrite big_ord_recl big_ord_recl big_ord0 /=.
+case: b hb => [|[|//]] _; case: i hi => [|[|//]] _; case: j hj => [|[|//]] _;
+  rewrite /Model.rd /= ?mulr0 ?mul0r ?addr0 ?add0r ?mulr1 //; by rewrite -natrM.
+Qed.
+
+Lemma nvh_valid2 : root_valid [:: 2%N] 2 nvh_A 2 (nvh_R ++ nvh_R).
+Proof.
+move=> b i j; rewrite /prodn /= muln1 => hb hi hj.
+rewrite big_ord_recl big_ord_recl big_ord0 /=.
+case: b hb => [|[|//]] _; case: i hi => [|[|//]] _; case: j hj => [|[|//]] _;
+  rewrite /Model.rd /= ?mulr0 ?mul0r ?addr0 ?add0r ?mulr1 //; by rewrite -natrM.
+Qed.
+
+Example C18_history_nonvacuous :
+  steps_valid [:: 2%N] 2 nvh_A nvh_hist /\ exists x, hist_run nvh_hist = Some x.
+Proof.
+split; last by eexists; rewrite /hist_run /=; reflexivity.
+rewrite /=; split=> //; split.
+  by split=> //; exact: nvh_valid.
+split; first by exists 2%N; split=> //; exact: nvh_valid2.
+split=> //; split; first by exists 2%N; split=> //; exact: nvh_valid.
+by split=> //; exists 2%N; split=> //; exact: nvh_valid.
+Qed.
+End NonVacuousHistory.
